@@ -2,6 +2,7 @@
 model (Pure/Remote.lean), on a real scratch tree."""
 from __future__ import annotations
 
+import json
 import os
 import random
 from pathlib import Path
@@ -135,8 +136,75 @@ def run(tier: str, seed: int) -> CompResult:
                 res.violations.append(Violation("C19", "pure.remote", f"built-in ignore patterns changed: {NodeManager.DEFAULT_IGNORES}", "builtin-ignores-changed", [lines[-1]], {}))
         finally:
             config._ensure_unconfigure()
+    # ---- which execution environments get their arguments mapped: `WorkerController.setup()` on a recording gateway
+    from xdist.workermanage import WorkerController
+
+    class _Chan:
+        def __init__(self) -> None:
+            self.sent: list = []
+
+        def send(self, obj: Any) -> None:
+            self.sent.append(obj)
+
+        def setcallback(self, *a: Any, **k: Any) -> None:
+            pass
+
+        def isclosed(self) -> bool:
+            return False
+
+        def close(self) -> None:
+            pass
+
+    class _Gw:
+        def __init__(self, spec: Any, gid: str) -> None:
+            self.spec, self.id, self.chan = spec, gid, _Chan()
+            spec.id = gid
+
+        def remote_exec(self, module: Any) -> Any:
+            return self.chan
+
+        def _rinfo(self) -> Any:
+            return None
+
+        def exit(self) -> None:
+            pass
+
+    os.chdir(base)
+    try:
+        for k in range(10 if tier == "quick" else 60):
+            specstr = rng.choice(["popen", "popen//chdir=abc", "socket=1.2.3.4:8888", "ssh=h", "ssh=h//chdir=rem", "popen//python=python3"])
+            testargs = rng.sample([str(base / "rootA/t/test_x.py") + "::test_x", str(base / "rootA/test_y.py"), "no_such_name.py", str(base / "rootA")], rng.randrange(1, 4))
+            args = ["-p", "no:cacheprovider", "-p", "no:terminal", "--rsyncdir", str(base / "rootA"), *testargs]
+            config = _prepareconfig(args, None)
+            try:
+                spec = execnet.XSpec(specstr)
+                nm = NodeManager(config, specs=[spec])
+                gw = _Gw(spec, "gw0")
+                wc = WorkerController(nm, gw, config, None)  # type: ignore[arg-type]
+                try:
+                    wc.setup()
+                except Exception as e:  # noqa: BLE001  (every argument lies under the root or names nothing on disk: nothing to reject)
+                    res.violations.append(Violation("C19", "pure.remote", f"execution environment {specstr!r}: starting the worker with arguments {testargs} "
+                                                    f"raised {type(e).__name__}: {e}", "setup-argument-mapping-raised",
+                                                    [json.dumps({"spec": specstr, "args": testargs})], {}))
+                    continue
+                sent_args = list(gw.chan.sent[0][1])
+                given = [str(x) for x in config.invocation_params.args]
+                remote_or_chdir = (not spec.popen) or bool(spec.chdir)
+                want = make_reltoroot(nm.roots, given) if remote_or_chdir else given
+                res.evaluations += 1
+                res.hit(f"setup:{'mapped' if remote_or_chdir else 'local'}")
+                res.distinct.add(h((specstr, tuple(testargs))))
+                if sent_args != want:
+                    res.violations.append(Violation("C19", "pure.remote", f"execution environment {specstr!r}: the worker was started with arguments {sent_args[-3:]}, "
+                                                    f"expected {'mapped into the synced roots' if remote_or_chdir else 'unchanged'}: {want[-3:]}",
+                                                    "setup-argument-mapping", [json.dumps({"spec": specstr, "args": testargs})], {}))
+            finally:
+                config._ensure_unconfigure()
+    finally:
+        os.chdir(cwd)
     model = run_driver("pure", lines)
-    res.evaluations = len(lines)
+    res.evaluations += len(lines)
     for l, m, i in zip(lines, model, impl):
         if m != i:
             if len(res.disagreements) < 8:
